@@ -237,7 +237,7 @@ func streamErrorf(rep *Report, tier string, seed uint64) {
 					orc = append(orc, "C15:HelperForErrorf panicked: "+pm)
 				} else {
 					if e := wflErr([]byte(s)); e != "" {
-						orc = append(orc, "C01:"+e)
+						orc = append(orc, wfTag(e)+e)
 					}
 					// expected error: exactly one %w whose operand (unwrapped) is an error
 					wantErr, exactlyOne, reach := expectedWrapped(f, args)
@@ -435,6 +435,14 @@ func historyCall(r *Rng) {
 		redact.Sprintfn(func(w redact.SafePrinter) { w.Printf("%+#08v", inner{A: 1}); w.UnsafeString("\n") })
 	case 6:
 		safely(func() { redact.Sprint(pSafeFormat{pString{"x"}}) })
+	case 8:
+		// ill-formed redactables constructed by hand (documented misuse, but a value class all the same)
+		g := []string{"›", "‹", "›‹", "a›", "‹›"}[r.Intn(5)]
+		if r.Bool() {
+			safely(func() { redact.Sprint(redact.RedactableString(g), "") })
+		} else {
+			safely(func() { redact.Sprintf("%v%.0s", redact.RedactableBytes(g), "dropped") })
+		}
 	case 7:
 		var b redact.StringBuilder
 		b.Print(redact.Safe(pString{"s"}))
